@@ -12,6 +12,7 @@ import (
 	"sort"
 	"strings"
 	"sync"
+	"sync/atomic"
 	"time"
 
 	"github.com/sharedcode/sop"
@@ -34,6 +35,7 @@ func (f Fault) String() string { return [...]string{"none", "failBefore", "failA
 
 // Call is one recorded backend call.
 type Call struct {
+	Seq    int64 // global order over all scripts of the process
 	Idx    int
 	Name   string // e.g. reg.Get, blob.Add, tlog.Add, l2.Lock
 	Args   string // canonical
@@ -74,6 +76,8 @@ func NewScript(c *Canon) *Script { return &Script{Faults: map[int]Fault{}, Canon
 
 var ErrInjected = fmt.Errorf("verif: injected fault")
 
+var globalSeq int64
+
 // enter registers a call; returns its index (0 when the call is quiet) and the fault to apply.
 func (s *Script) enter(name string) (int, Fault) {
 	if s == nil {
@@ -107,7 +111,7 @@ func (s *Script) leave(idx int, name, args, result string, err error, f Fault) {
 		return
 	}
 	s.mu.Lock()
-	s.Calls = append(s.Calls, Call{Idx: idx, Name: name, Args: args, Err: err != nil, Fault: f, Result: result})
+	s.Calls = append(s.Calls, Call{Seq: atomic.AddInt64(&globalSeq, 1), Idx: idx, Name: name, Args: args, Err: err != nil, Fault: f, Result: result})
 	ca := s.CrashAfter
 	s.mu.Unlock()
 	if ca > 0 && idx == ca {
